@@ -149,6 +149,26 @@ Theorem C08_resumes :
 Proof. exact resumes_x. Qed.
 Print Assumptions C08_resumes.
 
+(* Bounded loss along histories: from any reachable state, one append — whatever its fault —
+   takes away at most the top (oldest) archive and adds at most one archive (that of a
+   completed rotation, to the newest end); every other archive keeps its bytes and order. *)
+Theorem C08_append_evicts_at_most_top :
+  forall (name : N -> path) (b c : N) (cm : cmode) (file : path) (pre : bool),
+    (1 <= c)%N -> (b + c <= 4294967296)%N ->
+    names_injective name b c -> file_outside name b c file ->
+    forall (segs0 : list (list bytes)) (f0 : fs) (mode0 : bool) (ops : list hop) (s : ast)
+           (tr : list (ack * list ev)),
+      window name b (N.to_nat c) f0 = map (seg_bytes cm) segs0 ->
+      run_hist name cm file {| c_base := b; c_count := c; c_pre := pre |} ops (build file mode0 f0) = (s, tr) ->
+      forall (fire : N -> bool) (fault : option nat) (r : bytes) (s' : ast) (a : ack) (e : list ev) (imgs : list fs),
+        append_rec name cm file {| c_base := b; c_count := c; c_pre := pre |} fire fault r s = (s', a, e, imgs) ->
+        exists l R new,
+          window name b (N.to_nat c) (afs s) = l ++ R /\
+          window name b (N.to_nat c) (afs s') = R ++ new /\
+          length l <= 1 /\ length new <= 1 /\ (new <> [] -> In EvRolled e).
+Proof. exact append_evicts_at_most_top_x. Qed.
+Print Assumptions C08_append_evicts_at_most_top.
+
 (* ---- non-vacuity ---- *)
 Definition ex_pat : list N := [97; 46; 123; 125]%N.            (* "a.{}" *)
 Definition ex_name : N -> path := archive_name [] ex_pat.
